@@ -1,7 +1,7 @@
 (* Scalar.v — the executable scalar structure of the model: Gaussian rationals
    (pairs of canonical rationals Qc, Leibniz equality), a commutative ring with an
    involutive automorphism [cconj]; plus fixed-point approximations of exp / log / sqrt
-   used ONLY to run the model on transcendental parameterisations (accuracy ~2^-90,
+   used ONLY to run the model on transcendental parameterisations (accuracy ~2^-70,
    far below the comparison tolerance; not used by any theorem). *)
 From Coq Require Import ZArith QArith Qcanon List Bool Lia Ring Ring_theory Field.
 Import ListNotations.
@@ -57,16 +57,16 @@ Qed.
 Local Close Scope Qc_scope.
 Local Open Scope Z_scope.
 
-Definition FP : Z := 120.                       (* fractional bits *)
+Definition FP : Z := 80.                       (* fractional bits *)
 Definition ONE : Z := 2 ^ FP.
-(* ln 2 and 2*pi scaled by 2^120, rounded to nearest (computed offline, checked by selftest) *)
-Definition LN2 : Z := 921350637599661305226344307672478454.
-Definition TWOPI : Z := 8351785813007552717653752915327115494.
+(* ln 2 and 2*pi scaled by 2^120 (computed offline, checked by selftest), truncated to FP bits *)
+Definition LN2 : Z := 921350637599661305226344307672478454 / 2 ^ 40.
+Definition TWOPI : Z := 8351785813007552717653752915327115494 / 2 ^ 40.
 
-Definition to_fx (q : Q) : Z := (Qnum q * ONE) / Zpos (Qden q).
-Definition of_fx (z : Z) : Qc := Q2Qc (z # (Pos.pow 2 120)).
-Definition fmul (a b : Z) : Z := (a * b) / ONE.
-Definition fdiv (a b : Z) : Z := (a * ONE) / b.
+Definition to_fx (q : Q) : Z := Z.shiftl (Qnum q) FP / Zpos (Qden q).
+Definition of_fx (z : Z) : Qc := Q2Qc (z # (Pos.pow 2 80)).
+Definition fmul (a b : Z) : Z := Z.shiftr (a * b) FP.
+Definition fdiv (a b : Z) : Z := Z.shiftl a FP / b.
 
 (* Taylor series of exp on |r| <= ln2/2, n terms *)
 Fixpoint exp_series (n : nat) (k : Z) (term acc r : Z) : Z :=
@@ -77,8 +77,8 @@ Fixpoint exp_series (n : nat) (k : Z) (term acc r : Z) : Z :=
 Definition fexp (x : Z) : Z :=
   let n := (x + LN2 / 2) / LN2 in                (* nearest multiple of ln 2 *)
   let r := x - n * LN2 in
-  let e := exp_series 40 1 ONE ONE r in
-  if 0 <=? n then e * 2 ^ n else e / 2 ^ (- n).
+  let e := exp_series 26 1 ONE ONE r in
+  if 0 <=? n then Z.shiftl e n else Z.shiftr e (- n).
 
 (* atanh series: sum z^(2k+1)/(2k+1) *)
 Fixpoint atanh_series (n : nat) (k : Z) (pw acc z2 : Z) : Z :=
@@ -90,17 +90,23 @@ Fixpoint atanh_series (n : nat) (k : Z) (pw acc z2 : Z) : Z :=
 Definition flog (x : Z) : Z :=
   if x <=? 0 then 0 else
   let e0 := Z.log2 x - FP in
-  let m0 := if 0 <=? e0 then x / 2 ^ e0 else x * 2 ^ (- e0) in      (* m0 in [1,2) *)
+  let m0 := if 0 <=? e0 then Z.shiftr x e0 else Z.shiftl x (- e0) in      (* m0 in [1,2) *)
   let '(m, e) := if (3 * ONE / 2) <=? m0 then (m0 / 2, e0 + 1) else (m0, e0) in
   let z := fdiv (m - ONE) (m + ONE) in
-  let s := atanh_series 60 1 z z (fmul z z) in
+  let s := atanh_series 36 1 z z (fmul z z) in
   2 * s + e * LN2.
-Definition fsqrt (x : Z) : Z := Z.sqrt (x * ONE).
+Definition fsqrt (x : Z) : Z := Z.sqrt (Z.shiftl x FP).
 
 Definition qexp (q : Qc) : Qc := of_fx (fexp (to_fx q)).
 Definition qlog (q : Qc) : Qc := of_fx (flog (to_fx q)).
 Definition qsqrt (q : Qc) : Qc := of_fx (fsqrt (to_fx q)).
 Definition qtwopi : Qc := of_fx TWOPI.
+
+(* rounding to a dyadic rational with 100 fractional bits: applied after divisions so that the
+   executable evaluation only manipulates dyadic numbers (sizes then grow linearly) *)
+Definition qround (q : Qc) : Qc :=
+  Q2Qc (((Qnum (this q) * 2 ^ 100) / Zpos (Qden (this q))) # (Pos.pow 2 100)).
+Definition cround (a : C) : C := (qround (fst a), qround (snd a)).
 
 (* partial transcendental maps on C: defined on real arguments only *)
 Definition cexp (a : C) : option C := if is_real a then Some (cre (qexp (fst a))) else None.
